@@ -100,6 +100,10 @@ type SimExt struct {
 	// the cancellation of the one it was given (a tracing extension attaching a
 	// span to a detached context)
 	Detach bool
+	// SpanPerField makes ResolveFieldDidStart hand back a context derived with
+	// context.WithCancel that the finish function cancels (a span per field,
+	// ended when the field is done)
+	SpanPerField bool
 }
 
 func (e *SimExt) out(ctx context.Context) context.Context {
@@ -156,6 +160,13 @@ func (e *SimExt) ResolveFieldDidStart(ctx context.Context, i *graphql.ResolveInf
 	path := PathString(i.Path)
 	if e.R.hook(e.N, "RS", path, "") {
 		return e.out(ctx), nil
+	}
+	if e.SpanPerField && ctx != nil {
+		span, end := context.WithCancel(ctx)
+		return span, func(v interface{}, err error) {
+			defer end()
+			e.R.hook(e.N, "RE", path, fmt.Sprintf("%s %s", valKind(v), errInfo(err)))
+		}
 	}
 	return e.out(ctx), func(v interface{}, err error) {
 		e.R.hook(e.N, "RE", path, fmt.Sprintf("%s %s", valKind(v), errInfo(err)))
